@@ -288,12 +288,15 @@ class WKCResource(Resource):
 
 
                 def values(link, k=k):
-                    v = getattr(link, k, ())
-                    # Single-valued attributes (title, rel, anchor, ...) are
-                    # reported as a plain string, valueless ones as None
-                    if isinstance(v, str):
-                        return [v]
-                    return [x for x in v if x is not None]
+                    # Taken from the link's attribute list rather than
+                    # through getattr, which also finds what the name means
+                    # on the Python object (__module__, attr_pairs, to_py...)
+                    k_lower = k.lower()
+                    return [
+                        value
+                        for (key, value) in link.attr_pairs
+                        if key.lower() == k_lower and value is not None
+                    ]
 
                 filters.append(
                     lambda link, values=values: any(
